@@ -192,7 +192,7 @@ WIDE_ROLES = [':op1', ':op2', ':op9', ':op10', ':op11', ':ARG0', ':ARG1', ':ARG2
 
 
 @st.composite
-def _cases(draw):
+def _cases(draw, large=False):
     spec = draw(models.model_specs(noop=False))
     if spec.get('noop'):
         spec = dict(spec, noop=False)
@@ -200,7 +200,7 @@ def _cases(draw):
     rseed = draw(st.integers(0, 1000))
     c = draw(st.integers(0, 5))
     if c <= 2:
-        j = draw(trees.wf_trees(spec, max_nodes=6, extra_roles=WIDE_ROLES))
+        j = draw(trees.wf_trees(spec, max_nodes=25 if large else 6, extra_roles=WIDE_ROLES, wide=16 if large else 3))
         # widen: the generator adds up to 3 extras per node; rearrange needs wide nodes, so graft extra attributes
         R = roles_for(spec)
         extra = draw(st.lists(st.tuples(st.sampled_from(WIDE_ROLES), st.sampled_from(['1', '"s"', 'q', '-'])), max_size=6))
@@ -211,11 +211,11 @@ def _cases(draw):
                 j[1].insert(draw(st.integers(1 if j[1] and j[1][0][0] == '/' else 0, len(j[1]))), [r, x])
         return {'k': 'rearrange', 'tree': j, 'model': spec, 'key': key, 'af': draw(st.booleans()), 'rseed': rseed}
     if c <= 4:
-        j = draw(trees.wf_trees(spec, max_nodes=6, emptyconcept=False, extra_roles=WIDE_ROLES))
+        j = draw(trees.wf_trees(spec, max_nodes=20 if large else 6, emptyconcept=False, extra_roles=WIDE_ROLES, wide=8 if large else 3))
         return {'k': 'reconf', 'tree': j, 'model': spec, 'key': key, 'rseed': rseed}
     g = draw(graphs.wf_graphs(spec, max_vars=5))
     return {'k': 'built', 'g': g, 'model': spec, 'key': key, 'rseed': rseed}
 
 
 def stages(tier):
-    return [Hyp('random', _cases, 5000, 250000)]
+    return [Hyp('random', _cases, 5000, 250000), Hyp('random-large', lambda: _cases(large=True), 200, 10000)]
